@@ -138,7 +138,12 @@ func checkC01(c *Ctx) {
 	// R3 (continued): the bytes stay what the CRC was computed over: nothing reachable from the
 	// single-frame decoder writes into the frame
 	if gm := c.P.Func("rtcm/handler", "(*Handler).GetMessage"); gm != nil {
-		ruleRawBuffersReadOnly(c, "C01-R3", c.P.ReachableModule([]*ssa.Function{gm}))
+		roots := []*ssa.Function{gm}
+		// ... nor does the stream path between the decoder and the delivery
+		if hm := c.P.Func("rtcm/handler", "(*Handler).HandleMessages"); hm != nil {
+			roots = append(roots, hm)
+		}
+		ruleRawBuffersReadOnly(c, "C01-R3", c.P.ReachableModule(roots))
 	}
 	// R7: stream path: typed messages reach the stream only as the decoder's result on the
 	// path where the leader was accepted
@@ -151,7 +156,7 @@ func checkC01(c *Ctx) {
 }
 
 func checkC12(c *Ctx) {
-	c.Explanation = "Decides that a CRC failure costs exactly one frame: (R1) on the CRC-failure edge the single-frame decoder returns a non-RTCM message holding its whole input, which is the whole candidate frame of exactly L+6 bytes (exact-count rule); (R2) while the candidate is read the framer has no content-dependent exit and no push-back, so corruption inside payload or CRC (including new 0xD3 bytes) cannot move the frame boundary; the leader is untouched by assumption, so L is the same; (R3) the fetcher returns the decoder's message unchanged; (R4) the CRC gate compares all three bytes (a corrupted frame is not accepted) and the conservation rules of C02 hold, so the neighbours are delivered exactly as without the corruption; the five-byte leader helper rejects on leader content only (R2), and (R5) every call in the decoder that can change the handler's week state is dominated by the CRC-success edge, so the neighbours' reported times are untouched as well. (R6) nothing reachable from the stream handler can panic (the C07 obligations restricted to that root), so a corrupted frame cannot take the frames after it down with it."
+	c.Explanation = "Decides that a CRC failure costs exactly one frame: (R1) on the CRC-failure edge the single-frame decoder returns a non-RTCM message holding its whole input, which is the whole candidate frame of exactly L+6 bytes (exact-count rule); (R2) while the candidate is read the framer has no content-dependent exit and no push-back, so corruption inside payload or CRC (including new 0xD3 bytes) cannot move the frame boundary; the leader is untouched by assumption, so L is the same; (R3) the fetcher returns the decoder's message unchanged, and the stream handler closes its output and stops only at the end of its input (never because of rejections); (R4) the CRC gate compares all three bytes (a corrupted frame is not accepted) and the conservation rules of C02 hold, so the neighbours are delivered exactly as without the corruption; the five-byte leader helper rejects on leader content only (R2), and (R5) every call in the decoder that can change the handler's week state is dominated by the CRC-success edge, so the neighbours' reported times are untouched as well. (R6) nothing reachable from the stream handler can panic (the C07 obligations restricted to that root), so a corrupted frame cannot take the frames after it down with it."
 	c.NotDecided = "that a corrupted frame's CRC really differs (probability 2^-24 of an undetected error is inherent to the CRC)."
 	f := newFraming(c, "C12-anchor")
 	if f == nil {
@@ -192,6 +197,10 @@ func checkC12(c *Ctx) {
 	conservationRules(f, "C12-R4", consOpts{returns: true, decoderRaw: true, exactCount: true})
 	f.ruleCRCGate("C12-R4")
 	f.ruleStreamForward("C12-R3")
+	// "...alone": the stream handler goes on after a rejected frame — it closes its output and stops only
+	// when its input is exhausted, however many rejections came before (rules of C02-R5)
+	ruleStreamClose(c, f.pl, "C12-R3")
+	ruleStreamTermination(c, f.pl, "C12-R3")
 	// the neighbours' reported times too: a rejected frame must not advance the week state
 	ruleStateOnlyForVerifiedFrames(c, "C12-R5")
 	// the stream handler cannot be made to abort by any input: the no-panic obligations (C07 engine)
